@@ -40,6 +40,7 @@ class C15Gen:
         self.i = 0
         self.n = 0
         self.failed = []  # names that failed in a query and are not registered yet (look-ahead targets)
+        self.asked = []  # closed queries asked so far (re-asked later: the memoised / second answer)
 
     # ---------------------------------------------------------------- pickers
     def units_of(self, t):
@@ -81,6 +82,11 @@ class C15Gen:
             c, u = self.stale_probes.pop()
             client = "saboteur"
             op = self.qop(rng.choice([["db", "CheckCategoryUnit", [c, u]], ["S", 1.0, u, c], ["Q", u, c, None], ["db", "Convert", [c, u, u, 1.0]], ["dbl", "GetValidUnits", [c]]]), f="F1.lookahead")
+        elif sim.ops and sim.ops[-1].get("reg") and sim.log[-1][3] == "exc" and rng.random() < 0.5:
+            # right after a REJECTED registration: ask about the names it mentioned (a fresh database
+            # built from the accepted registrations has never heard of that call)
+            client = "inspector"
+            op = self.qop(self.probe_after_rejection(sim.ops[-1]["reg"], model))
         elif getattr(self, "rebuild", 0) > 0 and rng.random() < 0.6:
             self.rebuild -= 1
             client = "registrar"
@@ -93,7 +99,11 @@ class C15Gen:
         elif client == "saboteur":
             op = self.g_failing(sim, model)
         else:
-            op = self.g_query(sim, model, client)
+            if self.asked and rng.random() < self.cfg.get("repeat_rate", 0.15):
+                op = self.qop(rng.choice(self.asked[-12:]))
+            else:
+                op = self.g_query(sim, model, client)
+                self.asked.append(op["a"][0]["J"])
             r = rng.random()
             if self.cfg.get("intr_rate", 0) and r < self.cfg["intr_rate"]:
                 op["intr"] = int(min(400, max(1, rng.expovariate(1.0 / self.cfg.get("intr_mean", 40)))))
@@ -105,6 +115,25 @@ class C15Gen:
         op["i"] = self.i
         self.i += 1
         return op
+
+    def probe_after_rejection(self, reg, model):
+        rng = self.rng
+        kw = reg.get("kw") or {}
+        t = reg.get("type") or kw.get("quantity_type")
+        u = reg.get("unit")
+        c = reg.get("category")
+        table = [["db", "GetQuantityTypes", []], ["dbl", "IterCategories", []]]
+        if isinstance(t, str):
+            table += [["dbl", "GetUnits", [t]], ["db", "GetBaseUnit", [t]], ["dbl", "GetUnitNames", [t]], ["db", "CheckQuantityType", [t]]] * 2
+        if isinstance(u, str):
+            table += [["db", "GetQuantityType", [u]], ["db", "GetDefaultCategory", [u]], ["S", 1.0, u, None], ["Q", u, None, None]]
+            if isinstance(t, str):
+                table += [["db", "CheckQuantityTypeUnit", [t, u]], ["db", "GetUnitName", [t, u]], ["db", "Convert", [t, u, u, 2.0]]]
+        if isinstance(c, str):
+            table += [["db", "IsValidCategory", [c]], ["db", "GetCategoryInfo", [c]], ["dbl", "GetValidUnits", [c]], ["db", "GetDefaultUnit", [c]], ["Sc", c], ["Qn", c]] * 2
+            if isinstance(u, str):
+                table += [["db", "CheckCategoryUnit", [c, u]], ["S", 1.0, u, c]]
+        return rng.choice(table)
 
     def g_registration(self, sim, model):
         rng = self.rng
@@ -226,8 +255,35 @@ class C15Gen:
             return ["Sc", self.pick_cat(model, t, registered)]
         return ["Scu", self.pick_cat(model, t, registered), u]
 
+    def g_other_db(self, model):
+        """The same (category, unit) names asked of the database under test and of the second
+        instance: whatever one of them memoises must not leak into the other's answers."""
+        rng = self.rng
+        c = rng.choice(OTHER_CATS + [x for x in self.cats][:2])
+        u = rng.choice(OTHER_UNITS + [x for t in self.types for x in self.units_of(t)][:3] + ["ft"])
+        u2 = rng.choice(OTHER_UNITS)
+        tag = rng.choice(["db", "db2", "db2", "db2"])
+        tagl = tag + "l"
+        table = [
+            [tag, "CheckCategoryUnit", [c, u]],
+            [tag, "CheckCategoryUnit", [c, u]],
+            [tagl, "GetValidUnits", [c]],
+            [tag, "GetDefaultUnit", [c]],
+            [tag, "Convert", [c, u, u2, 2.0]],
+            [tag, "CheckValueForCategory", [c, -1.0, u]],
+            [tag, "GetQuantityType", [u]],
+            [tag, "GetDefaultCategory", [u]],
+            [tag, "GetCategoryInfo", [c]],
+            [tag, "CheckQuantityTypeUnit", [rng.choice(["length", "time"]), u]],
+        ]
+        if tag == "db":
+            table += [["S", 1.0, u, c], ["Q", u, c, None], ["m", ["S", 1.0, u, c], "IsValid", []]]
+        return rng.choice(table)
+
     def g_query(self, sim, model, client, registered=None):
         rng = self.rng
+        if rng.random() < self.cfg.get("other_db_rate", 0.1):
+            return self.qop(self.g_other_db(model))
         if registered is None:
             registered = rng.random() < 0.8
         t = self.pick_type()
@@ -294,7 +350,33 @@ class C15Gen:
         a1 = ["A", rng.choice(["L", "T", "N"]), [v, 2.0], u, c if rng.random() < 0.5 else None]
         a2 = ["A", rng.choice(["L", "T", "N"]), [1.0, self.value()], u2, None]
         op = rng.choice(["add", "sub", "mul", "truediv"])
+        # same-type leaves in different units / categories: derived operands whose composing map
+        # mentions one quantity type twice (the only place where a sum has to rewrite a unit inside
+        # the left operand's own map)
+        same = [self.leaf_scalar(model, t, registered) for _ in range(4)]
+        cs = [x for x in self.cats if x in model.cats and model.cats[x].get("type") == t]
+        us = self.registered_units(model, t)
+        if len(cs) >= 2 and len(us) >= 2 and rng.random() < 0.2:
+            c1, c2 = rng.sample(cs, 2)
+            u1, u2 = rng.sample(us, 2)
+            e1, e2 = rng.choice([(1, 1), (1, 1), (1, -1), (2, 1)])
+            if rng.random() < 0.5:
+                left = ["Sq", ["Qd", [[c1, u1, e1], [c2, u2, e2]]], v]
+                right = ["Sq", ["Qd", [[c1, u1, e1], [c2, u1, e2]]], self.value()]
+            else:
+                kind = rng.choice(["L", "T", "N"])
+                left = ["Aq", ["Qd", [[c1, u1, e1], [c2, u2, e2]]], kind, [v, self.value()]]
+                right = ["Aq", ["Qd", [[c1, u1, e1], [c2, u1, e2]]], kind, [1.0, self.value()]]
+            q = ["bin", rng.choice(["add", "sub"]), left, right]
+            if rng.random() < 0.5:
+                q = ["m", q, rng.choice(["GetUnit", "GetValue", "GetQuantity"]), []]
+            if rng.random() < 0.6:
+                self.asked.append(q)  # likely to be asked again
+            return self.qop(q)
         table = [
+            ["bin", rng.choice(["add", "sub"]), ["bin", "mul", same[0], same[1]], ["bin", "mul", same[2], same[3]]],
+            ["bin", rng.choice(["add", "sub"]), ["bin", "truediv", same[0], s2], ["bin", "truediv", same[2], s2]],
+            ["m", ["bin", "add", ["bin", "mul", same[0], same[1]], ["bin", "mul", same[2], same[3]]], "GetQuantity", []],
             ["bin", op, s1, s2],
             ["bin", op, s1, s2],
             ["bin", op, a1, a2],
@@ -430,6 +512,29 @@ class RegTrack(Mon.Monitor):
         sim.stats["probe:intern_entries"] = len(db.quantities_cache)
 
 
+class OtherDbPure(Mon.Monitor):
+    """Nothing done to / asked of the database under test changes what ANOTHER database instance
+    reports (registrations included)."""
+
+    def before(self, sim, op):
+        self.pre = Mon.registry_full(Q.OTHER["db"], probes=False)
+
+    def after(self, sim, op, out):
+        sim.oracle_checks += 1
+        now = Mon.registry_full(Q.OTHER["db"], probes=False)
+        if now != self.pre:
+            sim.violation(
+                "C15.pure",
+                {"what": "other_database", "op": op["k"][:40], "status": out[0], "fault": op.get("f")},
+                op["i"],
+                "another UnitDatabase instance changed during %s: %s" % (op["k"], Mon._diff_text(self.pre, now)),
+            )
+
+
+OTHER_CATS = ["length", "time", "depth"]
+OTHER_UNITS = ["m", "cm", "km", "mm", "s", "min", "h", "d"]
+
+
 class C15:
     prop = "C15"
     expected_faults = ["F1.lookahead", "F1.rejected_lookup", "F7.interrupt"]
@@ -491,11 +596,18 @@ class C15:
         cfg["preamble"] = rng.choice([0, 2, 4, 6, 8]) if world == "W-SYN" else rng.choice([0, 1, 2])
         cfg["constructive"] = rng.choice([0.3, 0.6, 0.8])
         cfg["cold_checks"] = 12 if tier == "quick" else 10 ** 6
+        cfg["repeat_rate"] = rng.choice([0.05, 0.15, 0.3])
+        cfg["other_db_rate"] = rng.choice([0, 0.1, 0.1, 0.3])
         return cfg
 
     def setup_world(self, cfg):
         from barril.units.unit_database import UnitDatabase
 
+        # a second database instance living next to the one under test (never the singleton)
+        other = UnitDatabase()
+        UnitDatabase.FillSimple(other)
+        other.AddCategory("depth", "length", valid_units=["m", "km"], default_unit="m", min_value=0.0)
+        Q.OTHER["db"] = other
         w = cfg["world"]
         if w == "W-POSC":
             return
@@ -516,7 +628,7 @@ class C15:
         units = sorted(set(u for t in cfg["types"] for u, _, _ in T[t]))
         focus = None if small else (list(cfg["types"]), list(cfg["cats"]), units)
         pure = Mon.RSnap("C15.pure", applies=lambda op: not op.get("reg"), focus=focus, full_at_end=False, memo_rule=False)
-        sim.monitors = [pure, track]
+        sim.monitors = [pure, OtherDbPure(), track]
         sim.user["model"] = RegModel.from_db(_db()) if cfg["world"] != "W-SYN" else RegModel()
         return sim
 
@@ -553,8 +665,14 @@ class C15:
             step = max(1, len(rest) // max(1, limit - len(chosen)))
             chosen += rest[::step][: limit - len(chosen)]
             cands = sorted(set(chosen))
-        rep = run_in_child(child_reg_cold, (self, full["cfg"], ops, set(cands), known), timeout=RUN_TIMEOUT * 3)
+        accepted = set(o["i"] for o in ops if o.get("reg") and log.get(o["i"], [0, 0, 0, "skip"])[3] == "ok")
+        rep = run_in_child(child_reg_cold, (self, full["cfg"], ops, set(), known, None), timeout=RUN_TIMEOUT * 3)
+        # the parent of the cold children has executed the ACCEPTED registrations only: a rejected
+        # registration is a failing operation, not part of what the fresh database is built from
+        repa = run_in_child(child_reg_cold, (self, full["cfg"], ops, set(cands), known, accepted), timeout=RUN_TIMEOUT * 3)
+        rep["cold"] = repa["cold"]
         out["execs"]["REG"] = 1
+        out["execs"]["REG-A"] = 1
         out["execs"]["COLD"] = len(rep["cold"])
         # oracle 3: registrations do not depend on the query history
         regsnaps = full.get("user_regsnaps") or {}
@@ -639,9 +757,10 @@ def _event_index(ops, log):
     return prev
 
 
-def child_reg_cold(profile, cfg, ops, cold_indices, known):
-    """REG: executes only the reg.* ops (accepted and rejected, in order); forks a COLD grandchild at
-    the position of each selected query, which evaluates that query alone and exits."""
+def child_reg_cold(profile, cfg, ops, cold_indices, known, only=None):
+    """REG: executes only the reg.* ops (accepted and rejected, in order; with `only`, just the ones
+    whose step is listed = REG-A); forks a COLD grandchild at the position of each selected query,
+    which evaluates that query alone and exits."""
     profile.setup_world(cfg)
     sim = Sim("C15", cfg, src_prefix(), known)
     sim.oracles = PropFilter("C15")
@@ -650,6 +769,8 @@ def child_reg_cold(profile, cfg, ops, cold_indices, known):
     out = {"reg": {}, "cold": {}}
     for op in ops:
         if op.get("reg"):
+            if only is not None and op["i"] not in only:
+                continue
             res = sim.execute(op)
             e = sim.log[-1]
             out["reg"][op["i"]] = [e[3], e[4], digest(track.snap())]
